@@ -4,9 +4,12 @@ package main
 //
 // Ops (input / implementation observation):
 //   akeys, khosts : (name data oracle cands layout alone blobs) / (parser-obs inspect-obs 1)
-//       blobs  = ((key-blob obs)...)  ssh.ParsePublicKey + attribute builder on every field of every line that is base64:
-//                (0 (type ((name value)...))) | (1) | (2); the model splits the lines into fields itself (Model/Containers.v
-//                auth_line / hosts_line) and is compared with the library's answer for every chunk (oracle)
+//       blobs  = ((key-blob obs [(curve point ok)])...)  ssh.ParsePublicKey + attribute builder on every field of every line
+//                that is base64: (0 (type ((name value)...))) | (1) | (2); the model splits the lines into fields itself
+//                (Model/Containers.v auth_line / hosts_line), parses and describes the key blobs itself (Model/ContainersSsh.v
+//                key_of_model over C02's Model/Keys.v) and is compared with the library's answer for every chunk (oracle) and
+//                every blob; the recorded obs is USED only for algorithms outside that model (sk-*, certificates, unknown
+//                names), the third element (elliptic.Unmarshal's verdict, ecdsa blobs only) for the point of an ecdsa key
 //   sshline : (hosts? line blobs expect alone) / obs of the library's line parser + attribute builder on that one line
 //       expect = () | (hosts-value)  the line is a well-formed entry (then alone = (obs) the key described on its own)
 //       oracle = ((chunk obs)...)   what the x/crypto/ssh line parser + attribute builder make of every LF-separated chunk
@@ -121,7 +124,7 @@ func c06Blobs(data []byte) SL {
 		}
 		seen[string(blob)] = true
 		blob = append([]byte{}, blob...)
-		out = append(out, SL{SB(blob), guard(func() Sx {
+		row := SL{SB(blob), guard(func() Sx {
 			typ, attrs, err := file.VerifSSHKeyBlobAttrs(blob)
 			if err != nil {
 				return ObsErr()
@@ -131,7 +134,13 @@ func c06Blobs(data []byte) SL {
 				l = append(l, SL{S(a.Name), S(a.Value)})
 			}
 			return ObsOk(SL{S(typ), l})
-		})})
+		})}
+		// an ecdsa-sha2-* blob: elliptic.Unmarshal's verdict on (inner curve name, point) - the one library answer the
+		// model of the key parser (Model/ContainersSsh.v key_of_model) still takes for the algorithms it covers
+		if ec := c06ECPointRow(blob); ec != nil {
+			row = append(row, ec)
+		}
+		out = append(out, row)
 	}
 	add(nil)
 	for _, ch := range bytes.Split(data, []byte("\n")) {
@@ -379,7 +388,8 @@ func c06SSHCase(c *Ctx, op, tag string, data []byte, its []sshItem, crlf bool, t
 			blobData = append(append(append([]byte{}, blobData...), '\n'), it.line...)
 		}
 	}
-	c.Emit(op+":"+tag, SL{S(name), SB(data), oracle, cands, layout, alone, c06Blobs(blobData)}, SL{pobs, insp, I(1)})
+	blobs := c06Blobs(blobData)
+	c.Emit(op+":"+tag+c06KTagRows(blobs), SL{S(name), SB(data), oracle, cands, layout, alone, blobs}, SL{pobs, insp, I(1)})
 }
 
 // c06LineCase: one line through the library's line parser (op sshline).  expectHosts != nil: the line is a
@@ -395,7 +405,8 @@ func c06LineCase(c *Ctx, tag string, hosts bool, line []byte, wellFormed bool, e
 		alone = SL{c06_infoObs(func() (file.Info, error) { return file.SSHPublicKey(file.Info{}, []byte(key+"\n")) })}
 	}
 	obs := c06_attrsObs(func() ([]file.Attribute, error) { return lineFn(line) })
-	c.Emit("sshline:"+tag, SL{Bool(hosts), SB(line), c06Blobs(line), expect, alone}, obs)
+	blobs := c06Blobs(line)
+	c.Emit("sshline:"+tag+c06KTagRows(blobs), SL{Bool(hosts), SB(line), blobs, expect, alone}, obs)
 }
 
 func c06SSHLayoutCase(c *Ctx, op, tag string, its []sshItem, crlf bool, trail int) {
@@ -1589,5 +1600,6 @@ func genC06(c *Ctx) {
 	genC06PEM(c)
 	genC06JKS(c)
 	genC06Big(c)
+	genC06SSHKeys(c) // last: the streams of the generators above stay what they were
 	os.RemoveAll(filepath.Join(c.Tmp, "c06"))
 }
